@@ -58,7 +58,7 @@ class Prop:
     def run(self, ctx):
         rng = ctx.rng('c18')
         cases = []
-        for _ in range(1500 if ctx.tier == 'quick' else 20000):
+        for _ in range(1500 if ctx.tier == 'quick' else 80000):
             parts, seq_no = [], 0
             second = (rng.randint(1, 9999), rng.randint(1, 12), rng.randint(1, 28), rng.randint(0, 23),
                       rng.randint(0, 59), rng.randint(0, 59)) if rng.random() < 0.5 else None
